@@ -49,6 +49,27 @@ JOBS = [
         assume=('in_mgrs.len <= 6', 'the value clauses concern prec <= 0 only, and MGRS.Reverse/post.accept_structure shows prec >= 1 for every accepted string longer than 6'),
         description='MGRS decoder, coordinates of grid-zone-only and 100 km strings'),
     Job('MGRS.UTMRow', 'MGRS::UTMRow', ['C05', 'C14'], description='row/band compatibility (exhaustive over all 3200 argument triples)'),
+    # ---- UTMUPS (C04)
+    Job('UTMUPS.StandardZone', 'UTMUPS::StandardZone', ['C04', 'C13', 'C14'], replace=['Math::AngNormalize', 'MGRS::LatitudeBand'],
+        const_classes=['<MGRS'], replay_ghost=[ANGNORM_GHOST % 'lon'], replay_domain=EXACT_LON, description='UTM zone rules'),
+    Job('UTMUPS.CheckCoords', 'UTMUPS::CheckCoords', ['C04', 'C13', 'C14'], const_classes=['<MGRS'], description='UTM/UPS coordinate ranges'),
+    Job('UTMUPS.Forward', 'UTMUPS::Forward', ['C04', 'C13', 'C14'], select=r'gamma', const_classes=['<MGRS'],
+        replace=[('UTMUPS::StandardZone', dict(may_throw=True)), ('UTMUPS::CheckCoords', dict(may_throw=True)), ('Math::AngDiff', dict(arity=2)),
+                 ('TransverseMercator::Forward', dict(static=True, arity=7)), ('PolarStereographic::Forward', dict(static=True, arity=7))],
+        inline=['UTMUPS::CentralMeridian'], description='geographic -> UTM/UPS'),
+    Job('UTMUPS.Reverse', 'UTMUPS::Reverse', ['C04', 'C13', 'C14'], select=r'gamma', const_classes=['<MGRS'],
+        replace=[('UTMUPS::CheckCoords', dict(may_throw=True)), ('TransverseMercator::Reverse', dict(static=True, arity=7)),
+                 ('PolarStereographic::Reverse', dict(static=True, arity=7))],
+        inline=['UTMUPS::CentralMeridian'], description='UTM/UPS -> geographic'),
+    Job('UTMUPS.Transfer', 'UTMUPS::Transfer', ['C04', 'C13', 'C14'], const_classes=['<MGRS'],
+        replace=[('UTMUPS::Forward', dict(select='gamma', may_throw=True)), ('UTMUPS::Reverse', dict(select='gamma', may_throw=True))],
+        inline=[('UTMUPS::Forward', dict(select=r'^((?!gamma).)*$', cname='UTMUPS_Forward_nogk', may_throw=True)),
+                ('UTMUPS::Reverse', dict(select=r'^((?!gamma).)*$', cname='UTMUPS_Reverse_nogk', may_throw=True))],
+        description='zone / hemisphere transfer'),
+    Job('UTMUPS.DecodeEPSG', 'UTMUPS::DecodeEPSG', ['C04', 'C14'], const_classes=['<MGRS'], description='EPSG code -> zone, hemisphere'),
+    Job('UTMUPS.EncodeEPSG', 'UTMUPS::EncodeEPSG', ['C04', 'C14'], const_classes=['<MGRS'], description='zone, hemisphere -> EPSG code'),
+    Job('UTMUPS.EPSG_roundtrip', None, ['C04'], lemma=True, replace=['UTMUPS::EncodeEPSG', 'UTMUPS::DecodeEPSG'], const_classes=['MGRS', 'UTMUPS'],
+        description='lemma: EPSG encode/decode are mutually inverse (from the two contracts)'),
 ]
 
 
@@ -68,11 +89,22 @@ NOT_BUILT = 'in reach of the technique (DESIGN.md section 5) but its contracts a
 NOT_APPLICABLE = {
     'C02': NUMERIC, 'C03': NUMERIC, 'C06': NUMERIC, 'C11': NUMERIC, 'C15': NUMERIC,
     'C17': NUMERIC + '; NearestNeighbor is a C++ template over user types that neither the C extraction nor the CBMC C++ front end can take',
-    'C01': NOT_BUILT, 'C04': NOT_BUILT, 'C07': NOT_BUILT, 'C08': NOT_BUILT, 'C09': NOT_BUILT, 'C10': NOT_BUILT,
+    'C01': NOT_BUILT, 'C07': NOT_BUILT, 'C08': NOT_BUILT, 'C09': NOT_BUILT, 'C10': NOT_BUILT,
     'C12': NOT_BUILT, 'C13': NOT_BUILT, 'C14': NOT_BUILT, 'C16': NOT_BUILT, 'C19': NOT_BUILT, 'C20': NOT_BUILT,
 }
 
 PROPS = {
+    'C04': dict(
+        level='proof',
+        level_text='UTM/UPS: zone selection rules (UPS outside [80S,84N), 6-degree zones, Norway, Svalbard) as inequalities on the normalised '
+                   'longitude; documented coordinate rectangles; false origins and central meridian; hemisphere; NaN -> INVALID; throw => outputs '
+                   'unchanged; EPSG round trips; all discharged by cbmc with the projections replaced by assumed frame contracts.',
+        level_note='Trusted: as C18, plus ASSUMED contracts of TransverseMercator::Forward/Reverse and PolarStereographic::Forward/Reverse '
+                   '(frame only). The 5 nm closure/inverse accuracy, convergence and scale values, and zone strings (strtol/ostringstream) are not decided.',
+        design_ref='DESIGN.md section 5, C04',
+        not_decided=['forward/reverse mutually inverse to 5 nm (numeric)', 'convergence and scale equal those of the projection beyond being passed through',
+                     'DecodeZone / EncodeZone strings (libc strtol, ostringstream: outside the extraction)'],
+    ),
     'C05': dict(
         level='proof',
         level_text='MGRS: structure/alphabet/tile containment of the encoder, acceptance conditions and tile-level values of the decoder, '
